@@ -13,3 +13,5 @@ open RV.C01
 #print axioms nested_refines_quadset
 #print axioms nested_simple_refines
 #print axioms binop_nested
+#print axioms gen_sound
+#print axioms gen_quiescent
